@@ -336,3 +336,5 @@ func rpcErrCode(err error) (int, bool) {
 func sortStrings(s []string) { sort.Strings(s) }
 
 func removeAll(dir string) { os.RemoveAll(dir) }
+
+func vtRule(id, rule string) { vt.For(id).Rule(rule) }
